@@ -72,7 +72,8 @@ pub trait ToVal {
 macro_rules! int_to_val {
     ($($t:ty),*) => { $( impl ToVal for $t { fn to_val(&self) -> Val { Val::N(*self as u64) } } )* };
 }
-int_to_val!(u8, u16, u32, u64, usize);
+// (`enumerate()`'s index type is inferred; without an annotation it defaults to `i32`)
+int_to_val!(u8, u16, u32, u64, usize, i32, i64);
 impl<T: ToVal + ?Sized> ToVal for &T {
     fn to_val(&self) -> Val {
         (**self).to_val()
